@@ -4,6 +4,7 @@ import (
 	"bytes"
 	"context"
 	"fmt"
+	"net/http"
 	"sort"
 	"strings"
 	"sync"
@@ -57,6 +58,10 @@ type c43Case struct {
 	Metrics          bool          `json:"metrics"`
 	RecordExceptions bool          `json:"record_exceptions"`
 	Sampler          string        `json:"sampler"` // always | parentbased
+	// Ambient: the server runs under a base context that already carries a live
+	// recording span of the embedding application (a worker lifecycle span on
+	// the pipe, a middleware span over HTTP) from another tracer provider.
+	Ambient bool `json:"ambient,omitempty"`
 	PipeCalls        []c43PipeCall `json:"pipe_calls,omitempty"`
 	HTTPCalls        []hCall       `json:"http_calls,omitempty"`
 	HTTPTraces       []c43Trace    `json:"http_traces,omitempty"`
@@ -89,6 +94,7 @@ func genC43(t *rapid.T) c43Case {
 	if rapid.IntRange(0, 2).Draw(t, "sampler") == 0 {
 		c.Sampler = "always"
 	}
+	c.Ambient = rapid.IntRange(0, 3).Draw(t, "ambient") == 0
 	if c.Transport == "pipe" {
 		n := rapid.IntRange(1, 10).Draw(t, "ncalls")
 		for i := 0; i < n; i++ {
@@ -310,6 +316,21 @@ func runC43(c c43Case) (out lib.Outcome) {
 	vgiotel.InstrumentServer(srv, cfg)
 	out.Label("transport:"+c.Transport, fmt.Sprintf("tracing:%v", c.Tracing), fmt.Sprintf("metrics:%v", c.Metrics), "sampler:"+c.Sampler)
 
+	var base context.Context
+	wrap := func(h http.Handler) http.Handler { return h }
+	if c.Ambient {
+		out.Label("ambient-span")
+		tp := sdktrace.NewTracerProvider(sdktrace.WithSampler(sdktrace.AlwaysSample()))
+		defer tp.Shutdown(context.Background())
+		ctx, span := tp.Tracer("embedding-app").Start(context.Background(), "lifecycle")
+		defer span.End()
+		base = ctx
+		wrap = func(h http.Handler) http.Handler {
+			return http.HandlerFunc(func(w http.ResponseWriter, r *http.Request) {
+				h.ServeHTTP(w, r.WithContext(trace.ContextWithSpan(r.Context(), span)))
+			})
+		}
+	}
 	want := map[metricKey]int64{}
 	dispatched := 0
 	note := func(method string, failed bool, tr c43Trace) {
@@ -347,7 +368,7 @@ func runC43(c c43Case) (out lib.Outcome) {
 			expected[i] = call.ExpectedStreams()
 			total += expected[i]
 		}
-		res := lib.RunPipe(srv, input.Bytes())
+		res := lib.RunPipeCtx(base, srv, input.Bytes())
 		if res.Panic != "" || res.DecodeErr != nil || len(res.Streams) != total {
 			out.Skipped = true // framing of the session is C02/C03's subject
 			out.Label("skipped:session-out-of-frame")
@@ -396,7 +417,7 @@ func runC43(c c43Case) (out lib.Outcome) {
 		}
 		_ = expectSpans
 	} else {
-		hs := newObsHTTP(srv, c.BatchLimit)
+		hs := wrap(newObsHTTP(srv, c.BatchLimit))
 		seen := 0
 		for ci, call := range c.HTTPCalls {
 			tr := c.HTTPTraces[ci]
@@ -523,7 +544,7 @@ var propC43 = lib.Prop[c43Case]{
 		"parent span/trace id = the sent traceparent's, started = ended after the history; rpc.server.requests per (method,status) = the history's calls. Non-trivial: a failing call that carried a traceparent.",
 	Gen:          genC43,
 	Run:          runC43,
-	Essential:    []string{"transport:pipe", "transport:http", "tracing:true", "tracing:false", "metrics:true", "metrics:false", "failed-with-traceparent", "parented", "continuation-span", "trace:unsampled", "trace:malformed", "trace:none", "sampler:always", "sampler:parentbased"},
+	Essential:    []string{"transport:pipe", "transport:http", "tracing:true", "tracing:false", "metrics:true", "metrics:false", "failed-with-traceparent", "parented", "continuation-span", "trace:unsampled", "trace:malformed", "trace:none", "sampler:always", "sampler:parentbased", "ambient-span"},
 	EssentialMin: 200,
 	Assumptions: []string{
 		"'the call failed' is judged from the client-visible response (an EXCEPTION batch, X-VGI-RPC-Error or a 4xx/5xx status)",
